@@ -2653,6 +2653,246 @@ def vm_crosscheck(ctx, sample):
     return len(pairs), bad
 
 
+# ---------------------------------------------------------------- stream: host environment (locale encoding)
+HOST_C_ENV = dict(LC_ALL="C", LANG="C", PYTHONUTF8="0", PYTHONCOERCECLOCALE="0")
+HOSTS = [  # (name, environment overrides, simulated codec of open() without an explicit encoding)
+    ("utf-8", dict(PYTHONUTF8="1"), None),
+    ("ascii", HOST_C_ENV, None),                       # the real interpreter under the POSIX C locale
+    ("cp1252", HOST_C_ENV, "cp1252"),                  # legacy Windows code page (simulated, see ref/c20_hostenv.py)
+    ("latin-1", HOST_C_ENV, "latin-1"),                # LANG=xx.ISO-8859-1 (simulated): decodes ANY byte string
+]
+
+
+class HostChildren:
+    """One child interpreter per host environment (harness/ref/c20_hostenv.py), kept for the write and the read phase."""
+
+    def __init__(self, ctx, hosts):
+        import subprocess
+        import sys
+        script = os.path.join(ctx["verif"], "harness", "ref", "c20_hostenv.py")
+        self.procs = []
+        for name, envo, sim in hosts:
+            env = {k: v for k, v in os.environ.items() if k not in ("PYTHONIOENCODING", "LC_CTYPE", "LC_ALL", "LANG", "PYTHONUTF8")}
+            env.update(envo)
+            env.update(PYTHONHASHSEED="0", PYTHONDONTWRITEBYTECODE="1")
+            self.procs.append((sim, subprocess.Popen([sys.executable, "-B", script, ctx["repo"]], env=env, stdin=subprocess.PIPE,
+                                                     stdout=subprocess.PIPE, stderr=subprocess.PIPE)))
+
+    def round(self, jobs):
+        """jobs: one per host -> answers (dict | ('harness', text)) in the same order; the children work concurrently."""
+        for (sim, p), job in zip(self.procs, jobs):
+            try:
+                p.stdin.write(json.dumps(dict(job, sim=sim), ensure_ascii=True).encode("ascii") + b"\n")
+                p.stdin.flush()
+            except (OSError, ValueError):          # the child died in an earlier round; reported there
+                pass
+        outs = []
+        for sim, p in self.procs:
+            ans = None
+            while True:
+                ln = p.stdout.readline()
+                if not ln:
+                    break
+                if ln.startswith(b"C20HOSTENV "):
+                    ans = json.loads(ln[11:].decode("ascii"))
+                    break
+            if ans is None:
+                try:
+                    se = p.communicate(timeout=30)[1]
+                except Exception:  # noqa
+                    p.kill()
+                    se = b"no answer"
+                ans = ("harness", se.decode("utf-8", "replace")[-800:])
+            outs.append(ans)
+        return outs
+
+    def close(self):
+        for _, p in self.procs:
+            try:
+                p.stdin.close()
+                p.wait(timeout=60)
+            except Exception:  # noqa
+                p.kill()
+
+
+HOSTENV_PRELUDE = """From Coq Require Import List NArith.
+From AHK Require Import Model.PersistText.
+Import ListNotations.
+Open Scope N_scope.
+"""
+
+
+def stream_hostenv(ctx, drv, cov, viols, root, r):
+    """The HOST dimension of 'read back unchanged after a restart': every file is written by the real save_data /
+    CharacteristicCacheFile in a child interpreter under each host environment and read back by fresh children under
+    EVERY host environment (same host = plain restart; other host = the CLI in a shell, then the service).  Oracle,
+    independent of the model: every writer succeeds, every reader loads exactly the data written, and the bytes on
+    disk are the same on every host.  Model tie (Model/PersistText.v): the file is utf8_enc of the text's code points,
+    utf8_dec of the file gives them back, and dec_ascii / dec_latin1 of the file are what the model says a reader
+    WITHOUT an explicit encoding would see (None / mojibake) - evaluated with vm_compute."""
+    tier = ctx["tier"]
+    hosts = HOSTS[:3] if tier == "quick" else HOSTS
+    stats = dict(hosts=[h[0] for h in hosts], files=0, writer_runs=0, reader_runs=0, restarts_same_host=0,
+                 restarts_other_host=0, non_ascii_files=0, host_reports={}, model_strings=0)
+    reset_dir(root, {})
+    # ---- documents
+    pair_sets = {"ascii.json": {"alias": gen_pairing(r, "IP"), "a b": gen_pairing(r, "BLE")},
+                 "all_aliases.json": {a: gen_pairing(r, ["IP", "BLE", "CoAP"][i % 3]) for i, a in enumerate(ALIASES)},
+                 "empty.json": {}}
+    fld = gen_pairing(r, "CoAP")
+    fld["name"] = "Wohnzimmer – Küche ☕"                     # non-ASCII only inside an (unknown) field value
+    pair_sets["field_only.json"] = {"plain": fld}
+    for a in ("é́", "日本語のエイリアス", "🏠 home", "ключ", "Ünï/cödé:1"):     # one per UTF-8 sequence length / script
+        pair_sets["one_%04x.json" % ord(a[0])] = {a: gen_pairing(r)}
+    for i in range(2 if tier == "quick" else 40):
+        pair_sets[f"rnd{i}.json"] = gen_pairing_set(r)
+    names = ["Küche", "客厅 ☕", "plain", "Fenêtre \U0001f3e0", "ÿĀ߿ࠀ￿\U00010000\U0010ffff"]
+
+    def emap_named(nm, i):
+        return [{"aid": 1 + i, "services": [{"iid": 1, "type": "0000003E-0000-1000-8000-0026BB765291", "characteristics": [
+            {"type": "00000023-0000-1000-8000-0026BB765291", "iid": 2, "perms": ["pr"], "format": "string", "value": nm}]}]}]
+    cache_sets = {"cache_ascii.json": [["00:00:00:00:00:01", 3, emap_named("plain", 0), None, None]],
+                  "cache_names.json": [["00:00:00:00:00:%02x" % (i + 2), 1 + i, emap_named(nm, i), hexs(r, 32) if i % 2 else None,
+                                        (7 + i) if i % 3 else None] for i, nm in enumerate(names)]}
+    for i in range(1 if tier == "quick" else 20):
+        em = gen_entity_map(r, True, small=True)
+        while not wf_map(em):
+            em = gen_entity_map(r, True, small=True)
+        cache_sets[f"cache_rnd{i}.json"] = [["AA:BB:CC:00:00:%02X" % i, 5, em, hexs(r, 32), 65535]]
+    # a file that was NOT written by this code base's writer in this run: stdlib json, same layout (previous version / other tool)
+    foreign = {"foreign_all.json": pair_sets["all_aliases.json"]}
+    for fn, ps in foreign.items():
+        os.makedirs(os.path.join(root, "foreign"), exist_ok=True)
+        with open(os.path.join(root, "foreign", fn), "wb") as f:
+            f.write(dumps_file(ps))
+    seen = set()
+
+    def report(key, what, **payload):
+        if key not in seen:
+            seen.add(key)
+            viols.append(violation(key, what, True, **payload))
+    # ---- writers (one child per host, each in its own directory)
+    for h in hosts:
+        os.makedirs(os.path.join(root, "w_" + h[0]), exist_ok=True)
+    children = HostChildren(ctx, hosts)
+    wres = children.round([dict(mode="write", dir=os.path.join(root, "w_" + h[0]), pairs=pair_sets, caches=cache_sets) for h in hosts])
+    content = {}
+    for h, res in zip(hosts, wres):
+        stats["writer_runs"] += 1
+        if isinstance(res, tuple):
+            viols.append(violation("harness-exception:host_environment", f"writer child for host {h[0]} failed: {res[1]}", False))
+            continue
+        stats["host_reports"][h[0]] = res["host"]
+        for kind, sets in (("pairs", pair_sets), ("caches", cache_sets)):
+            for fn, data in sets.items():
+                w = res[kind].get(fn, ["missing"])
+                site = "save_data" if kind == "pairs" else "cache_save"
+                if w[0] != "ok":
+                    report(f"host_encoding:{site}-fails:{h[0]}", f"{site} on a host whose preferred encoding is {h[0]} fails "
+                           f"with {w[1:]} for a document the utf-8 host saves", host=h[0], file=fn, data=data, impl=w)
+                    continue
+                b = open(os.path.join(root, "w_" + h[0], fn), "rb").read()
+                content[(h[0], fn)] = b
+                ref = content.get((hosts[0][0], fn))
+                if ref is not None and b != ref:
+                    report(f"host_encoding:{site}-bytes-depend-on-host:{h[0]}", f"{site} writes other bytes on a {h[0]} host than "
+                           "on a utf-8 host: the file cannot be read back by the other one", host=h[0], file=fn, data=data,
+                           bytes_here=show_content(b), bytes_utf8_host=show_content(ref))
+    # ---- readers: every host reads every writer's files (and the foreign file)
+    jobs = []
+    for h in hosts:
+        sets = [dict(tag=w[0], dir=os.path.join(root, "w_" + w[0]), pairs=[fn for fn in pair_sets if (w[0], fn) in content],
+                     caches=[fn for fn in cache_sets if (w[0], fn) in content]) for w in hosts]
+        sets.append(dict(tag="foreign", dir=os.path.join(root, "foreign"), pairs=list(foreign), caches=[]))
+        jobs.append((h, dict(mode="read", sets=sets)))
+    rres = children.round([j for _, j in jobs])
+    children.close()
+    flat = []
+    for (h, job), res in zip(jobs, rres):
+        stats["reader_runs"] += 1
+        if isinstance(res, tuple):
+            viols.append(violation("harness-exception:host_environment", f"reader child for host {h[0]} failed: {res[1]}", False))
+            continue
+        for st in job["sets"]:
+            flat.append((h, st["tag"], st, res["sets"][st["tag"]]))
+    for h, wname, job, res in flat:
+        same = wname == h[0]
+        rel = "same-host" if same else ("foreign-file" if wname == "foreign" else "other-host")
+        for fn in job["pairs"]:
+            want = (foreign if wname == "foreign" else pair_sets)[fn]
+            got = res["pairs"].get(fn, ["missing"])
+            nonascii = not json.dumps(want, ensure_ascii=False).isascii()
+            stats["restarts_same_host" if same else "restarts_other_host"] += 1
+            cov.case(f"hostenv|p|{wname}|{h[0]}|{fn}", True,
+                     sample=dict(stream="host_environment", writer=wname, reader=h[0], file=fn, result=got[0]) if fn.startswith("all") and not same else None,
+                     hostenv_writer=wname, hostenv_reader=h[0], hostenv_non_ascii=nonascii, hostenv_result=got[0])
+            if got[0] != "ok" or got[1] != want:
+                how = got[0] if got[0] != "ok" else "differs"
+                diff = None
+                if got[0] == "ok":
+                    diff = dict(missing=sorted(set(want) - set(got[1])), unexpected=sorted(set(got[1]) - set(want)),
+                                changed=sorted(a for a in want if a in got[1] and got[1][a] != want[a]))
+                report(f"host_encoding:load_data:{rel}:{how}:{h[0]}", f"pairing file written on a {wname} host ({len(want)} pairings, "
+                       f"{'non-ASCII' if nonascii else 'ASCII only'}) is not read back unchanged after a restart on a host whose "
+                       f"preferred encoding is {h[0]}: {got[0]} {got[1] if got[0] != 'ok' else diff}", writer=wname, reader=h[0],
+                       file=fn, saved=want, impl=got if got[0] != "ok" else diff,
+                       file_bytes=show_content(content.get((wname, fn), b"")) if wname != "foreign" else None)
+        for fn in job["caches"]:
+            ents = cache_sets[fn]
+            want = {e[0]: dict(config_num=e[1], accessories=e[2], broadcast_key=e[3], state_num=e[4]) for e in ents}
+            got = res["caches"].get(fn, ["missing"])
+            nonascii = not json.dumps(want, ensure_ascii=False).isascii()
+            stats["restarts_same_host" if same else "restarts_other_host"] += 1
+            cov.case(f"hostenv|c|{wname}|{h[0]}|{fn}", True, hostenv_writer=wname, hostenv_reader=h[0], hostenv_non_ascii=nonascii,
+                     hostenv_result=got[0])
+            if got[0] != "ok" or got[1] != want:
+                how = got[0] if got[0] != "ok" else ("empty" if not got[1] else "differs")
+                report(f"host_encoding:cache_load:{rel}:{how}:{h[0]}", f"accessory cache written on a {wname} host is not read back "
+                       f"unchanged after a restart on a host whose preferred encoding is {h[0]}: {got[0]} "
+                       f"{got[1] if got[0] != 'ok' else sorted(got[1])}", writer=wname, reader=h[0], file=fn, saved=want,
+                       impl=got if got[0] != "ok" else sorted(got[1]))
+    stats["files"] = len(content)
+    stats["non_ascii_files"] = sum(1 for b in content.values() if not b.isascii())
+    # ---- model tie: utf8_enc / utf8_dec / dec_ascii / dec_latin1 of Model/PersistText.v against CPython's codecs
+    if not ctx.get("replay"):
+        from common import coq_eval
+        import re
+        strs = sorted(set(ALIASES) | set(names) | {"", "\x7f\x80", "퟿", "a\u0080b"})
+        files = sorted((k for k in content if k[0] == hosts[0][0] and len(content[k]) < 2500), key=lambda k: len(content[k]))[:6]
+        rawb = [b"\xc3", b"\xe5\xae", b"\xc0\xaf", b"\xed\xa0\x80", b"\xf4\x90\x80\x80", b"\xf0\x8f\xbf\xbf", b"\xe0\x9f\xbf", b"a\x80",
+                b"\xf8\x88\x80\x80\x80", b"K\xc3\xbcche", b"\xff"] + [content[k][:c] for k in files[-2:] for c in
+                                                                          r.sample(range(len(content[k])), min(12, len(content[k])))]
+        def gl(xs):
+            return "[" + "; ".join(str(x) for x in xs) + "]"
+        body = [HOSTENV_PRELUDE]
+        checks = []
+        for s in strs:
+            body.append(f"Eval vm_compute in (utf8_enc {gl(ord(c) for c in s)}).")
+            checks.append(("enc", s, list(s.encode("utf-8", "surrogatepass"))))
+        for b in [content[k] for k in files] + rawb:
+            for fnm, codec in (("utf8_dec", "utf-8"), ("dec_ascii", "ascii"), ("dec_latin1", "latin-1")):
+                body.append(f"Eval vm_compute in (match {fnm} {gl(b)} with Some l => 1 :: l | None => [] end).")
+                try:
+                    want = [1] + [ord(c) for c in b.decode(codec)]
+                except UnicodeDecodeError:
+                    want = []
+                checks.append((fnm, b, want))
+        out = coq_eval(ctx["verif"], ctx.get("pid", "C20"), "hostenv", "\n".join(body) + "\n", timeout=300)
+        blocks = re.split(r"(?m)^\s*= ", out)[1:]
+        if len(blocks) != len(checks):
+            viols.append(violation("hostenv:model-mismatch:vm_compute", f"{len(checks)} terms, {len(blocks)} values printed", False))
+        else:
+            for (kind, inp, want), blk in zip(checks, blocks):
+                got = [int(x) for x in re.findall(r"\d+", blk.rsplit(":", 1)[0])]
+                stats["model_strings"] += 1
+                if got != want:
+                    viols.append(violation(f"hostenv:model-mismatch:{kind}", f"Model/PersistText.v {kind} differs from CPython's codec on "
+                                           f"{inp!r}: model {got[:40]}, CPython {want[:40]}", False, input=repr(inp),
+                                           broken="correspondence Model/PersistText.v"))
+                    break
+    cov.extra["host_environment_stream"] = stats
+
+
 # ---------------------------------------------------------------- run
 async def run_async(ctx):
     tier, seed = ctx["tier"], ctx["seed"]
@@ -2679,6 +2919,7 @@ async def run_async(ctx):
                          ("cache", lambda: stream_cache(ctx, drv, cov, viols, root, rng(seed, "c20cache"))),
                          ("cache_history", lambda: stream_cachehist(ctx, drv, cov, viols, root, rng(seed, "c20cachehist"))),
                          ("layout", lambda: stream_layout(ctx, drv, cov, viols, root, rng(seed, "c20layout"))),
+                         ("host_environment", lambda: stream_hostenv(ctx, drv, cov, viols, root, rng(seed, "c20hostenv"))),
                          ("json_codec", lambda: stream_jcodec(ctx, drv, cov, viols, root, rng(seed, "c20jcodec"))),
                          ("pairs", lambda: stream_pairs(ctx, drv, cov, viols, root, rng(seed, "c20pairs"))),
                          ("entry", lambda: stream_entry(ctx, drv, cov, viols, root, rng(seed, "c20entry"))),
